@@ -2,8 +2,8 @@ SPECIFICATION Spec
 CONSTANTS
   MaxPO = 2
   MaxPK = 2
-  MaxKO = 2
-  FixPO = 2
+  MaxKO = 1
+  FixPO = 9
   MaxPos = 5
   Extra = 1
   MaxKw = 2
